@@ -8,7 +8,7 @@
 From BV Require Import Base UStr GherkinTypes Gherkin GherkinProofs GherkinBlockProofs.
 
 (* the outer feature: everything but its items, and the items below the rule being read *)
-Record zctx := mkZ { z_kw : ustr; z_name : ustr; z_line : nat; z_tags : list tag; z_descr : list ustr; z_lang : ustr; z_below : list fitem }.
+Record zctx := mkZ { z_kw : ustr; z_name : ustr; z_line : nat; z_tags : list tag; z_descr : list ustr; z_bg : option pbg; z_lang : ustr; z_below : list fitem }.
 
 Fixpoint scens (l : list fitem) : list pscen :=
   match l with [] => [] | FScen s :: r => s :: scens r | FRule _ :: r => scens r end.
@@ -21,11 +21,11 @@ Fixpoint span_rules (l : list fitem) : list fitem * list fitem :=
   end.
 
 Definition rule_of (vf : pfeature) (old : list fitem) : prule :=
-  mkPRule (f_kw vf) (f_name vf) (f_line vf) (f_tags vf) (f_descr vf) (f_bg vf) (scens old).
+  mkPRule (f_kw vf) (f_name vf) (f_line vf) (f_tags vf) (f_descr vf) None (scens old).
 
 Definition wrap (z : zctx) (vf : pfeature) : pfeature :=
   let '(p, o) := span_rules (f_items vf) in
-  mkPFeat (z_kw z) (z_name z) (z_line z) (z_tags z) (z_descr z) None (p ++ FRule (rule_of vf o) :: z_below z) (z_lang z).
+  mkPFeat (z_kw z) (z_name z) (z_line z) (z_tags z) (z_descr z) (z_bg z) (p ++ FRule (rule_of vf o) :: z_below z) (z_lang z).
 
 Definition stmap (s : pst) : pst := match s with StFeature => StRule | x => x end.
 
@@ -40,12 +40,12 @@ Definition is_scen (i : fitem) : bool := match i with FScen _ => true | FRule _ 
 
 (* zoomed states: the feature has no background; either nothing but scenarios so far (container: the feature), or
    rules on top of the scenarios (container: the newest rule) *)
-Definition ztree (m : mstate) : Prop :=
-  exists vf, m_feat m = Some vf /\ f_bg vf = None /\
-    ((m_cont m = CFeat /\ forallb is_scen (f_items vf) = true) \/
+Definition ztree (z : zctx) (m : mstate) : Prop :=
+  exists vf, m_feat m = Some vf /\ f_bg vf = z_bg z /\
+    ((m_cont m = CFeat /\ forallb is_scen (f_items vf) = true /\ m_stmt m <> PBg) \/
      (m_cont m = CRule /\ exists r t, f_items vf = FRule r :: t /\ forallb is_scen (snd (span_rules t)) = true)).
-Definition zshape (m : mstate) : Prop :=
-  ztree m /\ (m_cont m = CFeat -> m_st m <> StRule) /\ (m_cont m = CRule -> m_st m <> StFeature) /\ m_st m <> StInitial.
+Definition zshape (z : zctx) (m : mstate) : Prop :=
+  ztree z m /\ (m_cont m = CFeat -> m_st m <> StRule) /\ (m_cont m = CRule -> m_st m <> StFeature) /\ m_st m <> StInitial.
 
 Definition rmap {A B} (f : A -> B) (r : res A) : res B := match r with ROk a => ROk (f a) | RErr l => RErr l end.
 Definition romap {A B} (f : A -> B) (r : res (option A)) : res (option B) :=
@@ -64,9 +64,9 @@ Lemma uz_st z m s : s <> StFeature -> unzoom z (upd_st m s) = upd_st (unzoom z m
 Proof. intros H. destruct s; try reflexivity. congruence. Qed.
 
 (* ---- the statement pointer ---- *)
-Lemma uz_get_stmt z m : ztree m -> m_stmt m <> PRuleS -> get_stmt (unzoom z m) = get_stmt m.
+Lemma uz_get_stmt z m : ztree z m -> m_stmt m <> PRuleS -> get_stmt (unzoom z m) = get_stmt m.
 Proof.
-  intros (vf & F & BG & [[C A] | [C (r & t & I & A)]]) NP; unfold get_stmt, unzoom, cont_bg, cur_rule, vf_of, wrap; cbn; rewrite F, C.
+  intros (vf & F & BG & [[C [A NPB]] | [C (r & t & I & A)]]) NP; unfold get_stmt, unzoom, cont_bg, cur_rule, vf_of, wrap; cbn; rewrite F, C.
   - rewrite (span_scens _ A). cbn. destruct (m_stmt m); try reflexivity; try congruence.
     destruct (f_items vf) as [|[s|r] t]; cbn; try reflexivity. cbn in A. discriminate A.
   - rewrite I. cbn. destruct (span_rules t) as [p o]. cbn. destruct (m_stmt m); try reflexivity; congruence.
@@ -74,12 +74,12 @@ Qed.
 
 Ltac zsetup H m :=
   let vf := fresh "vf" in let F := fresh "F" in let BG := fresh "BG" in let C := fresh "C" in let A := fresh "A" in
-  let r := fresh "r" in let t := fresh "t" in let I := fresh "I" in
-  destruct H as (vf & F & BG & [[C A] | [C (r & t & I & A)]]);
+  let r := fresh "r" in let t := fresh "t" in let I := fresh "I" in let NPB := fresh "NPB" in
+  destruct H as (vf & F & BG & [[C [A NPB]] | [C (r & t & I & A)]]);
   destruct m as [st ln last mls mll mlt lang kw var feat cont detr stmt det tags lines table inex];
-  destruct vf as [fkw fname fline ftags fdescr fbg fitems flang]; cbn in F, BG, C, A |- *; try (cbn in I); subst.
+  destruct vf as [fkw fname fline ftags fdescr fbg fitems flang]; cbn in F, BG, C, A |- *; try (cbn in I); try (cbn in NPB); subst.
 
-Lemma uz_set_stmt z m v : ztree m -> m_stmt m <> PRuleS -> set_stmt (unzoom z m) v = unzoom z (set_stmt m v).
+Lemma uz_set_stmt z m v : ztree z m -> m_stmt m <> PRuleS -> set_stmt (unzoom z m) v = unzoom z (set_stmt m v).
 Proof.
   intros H NP. zsetup H m; cbn in NP.
   - unfold set_stmt, set_item, set_cont_bg, set_cur_rule, cur_rule, unzoom, wrap, vf_of, set_feat_bg, set_rule_bg, rule_of. cbn.
@@ -95,21 +95,14 @@ Qed.
 Ltac zunfold := unfold set_stmt, set_item, set_cont_bg, set_cur_rule, cur_rule, cont_bg, add_item, get_stmt, last_bg_type, unzoom, wrap,
                        vf_of, set_feat_bg, set_rule_bg, rule_of, build_rule, build_background, add_feature_descr, upd_tree, upd_tags.
 
-Lemma uz_add_item z m s : ztree m -> add_item (unzoom z m) s = unzoom z (add_item m s).
+Lemma uz_add_item z m s : ztree z m -> add_item (unzoom z m) s = unzoom z (add_item m s).
 Proof.
   intros H. zsetup H m.
   - zunfold. cbn. rewrite (span_scens _ A). cbn. reflexivity.
   - zunfold. cbn. destruct (span_rules t) as [p o] eqn:SP. cbn. rewrite ?SP. reflexivity.
 Qed.
 
-Lemma uz_cont_bg z m : ztree m -> cont_bg (unzoom z m) = cont_bg m.
-Proof.
-  intros H. zsetup H m.
-  - zunfold. cbn. rewrite (span_scens _ A). reflexivity.
-  - zunfold. cbn. destruct (span_rules t) as [p o] eqn:SP. reflexivity.
-Qed.
-
-Lemma uz_last_bg_type z m : ztree m -> last_bg_type (unzoom z m) = last_bg_type m.
+Lemma uz_last_bg_type z m : ztree z m -> last_bg_type (unzoom z m) = last_bg_type m.
 Proof.
   intros H. zsetup H m.
   - zunfold. cbn. rewrite (span_scens _ A). reflexivity.
@@ -120,13 +113,13 @@ Qed.
 Definition sigok (st : pst) (c : cont) (p : sptr) : Prop :=
   st <> StInitial /\ (c = CFeat -> st <> StRule /\ p <> PBg) /\ (c = CRule -> st <> StFeature) /\
   ((st = StScenario \/ st = StBackground) -> p <> PRuleS).
-Definition zinv (m : mstate) : Prop := ztree m /\ sigok (m_st m) (m_cont m) (m_stmt m).
+Definition zinv (z : zctx) (m : mstate) : Prop := ztree z m /\ sigok (m_st m) (m_cont m) (m_stmt m).
 
 Definition rall {A} (P : A -> Prop) (r : res A) : Prop := match r with ROk a => P a | RErr _ => True end.
 Definition roall {A} (P : A -> Prop) (r : res (option A)) : Prop := match r with ROk (Some a) => P a | _ => True end.
 
-Lemma ztree_ext m m' : m_feat m' = m_feat m -> m_cont m' = m_cont m -> ztree m -> ztree m'.
-Proof. intros F C (vf & F0 & BG & H). exists vf. rewrite F, C. auto. Qed.
+Lemma ztree_ext z m m' : m_feat m' = m_feat m -> m_cont m' = m_cont m -> m_stmt m' = m_stmt m -> ztree z m -> ztree z m'.
+Proof. intros F C P (vf & F0 & BG & H). exists vf. rewrite F, C, P. auto. Qed.
 
 Lemma set_stmt_sig m v : m_st (set_stmt m v) = m_st m /\ m_cont (set_stmt m v) = m_cont m /\ m_stmt (set_stmt m v) = m_stmt m.
 Proof.
@@ -138,31 +131,33 @@ Qed.
 Ltac ztB := eexists; cbn; split; [reflexivity|]; split; [reflexivity|]; right; split; [reflexivity|];
             eexists; eexists; split; [reflexivity|]; cbn; assumption.
 
-Lemma ztree_set_stmt m v : ztree m -> (m_cont m = CFeat -> m_stmt m <> PBg) -> ztree (set_stmt m v).
+Ltac ztA := eexists; cbn; split; [reflexivity|]; split; [reflexivity|]; left; split; [reflexivity|];
+            split; [cbn; assumption|cbn; try assumption; try discriminate].
+
+Lemma ztree_set_stmt z m v : ztree z m -> ztree z (set_stmt m v).
 Proof.
-  intros H NB. zsetup H m; cbn in NB.
+  intros H. zsetup H m.
   - unfold set_stmt, set_item, set_cur_rule, cur_rule, set_cont_bg. cbn.
-    destruct stmt, v; cbn; try (exfalso; now apply NB);
-      destruct fitems as [|[s0|r0] t0]; cbn in *; try discriminate A;
-      (eexists; cbn; split; [reflexivity|]; split; [reflexivity|]; left; split; [reflexivity|]; cbn; assumption).
+    destruct stmt, v; cbn; try congruence;
+      destruct fitems as [|[s0|r0] t0]; cbn in *; try discriminate A; ztA.
   - unfold set_stmt, set_item, set_cont_bg, set_cur_rule, cur_rule. cbn.
     destruct stmt, v; cbn; try ztB; destruct (r_items r); cbn; ztB.
 Qed.
 
-Lemma add_item_sig m s : ztree m -> m_st (add_item m s) = m_st m /\ m_cont (add_item m s) = m_cont m /\ m_stmt (add_item m s) = PItem.
+Lemma add_item_sig z m s : ztree z m -> m_st (add_item m s) = m_st m /\ m_cont (add_item m s) = m_cont m /\ m_stmt (add_item m s) = PItem.
 Proof. intros H. zsetup H m; unfold add_item, set_cur_rule, cur_rule; cbn; auto. Qed.
 
-Lemma ztree_add_item m s : ztree m -> ztree (add_item m s).
+Lemma ztree_add_item z m s : ztree z m -> ztree z (add_item m s).
 Proof.
   intros H. zsetup H m; unfold add_item, set_cur_rule, cur_rule; cbn.
-  - eexists; cbn. split; [reflexivity|]. split; [reflexivity|]. left. split; [reflexivity|]. cbn. exact A.
+  - ztA.
   - ztB.
 Qed.
 
 (* ---- composite operations ---- *)
 Lemma sptr_eq_dec (a b : sptr) : {a = b} + {a <> b}.  Proof. decide equality. Qed.
 
-Lemma uz_get_stmt_rule z m : ztree m -> m_stmt m = PRuleS ->
+Lemma uz_get_stmt_rule z m : ztree z m -> m_stmt m = PRuleS ->
   (exists r, get_stmt (unzoom z m) = Some (VRule r)) /\ (get_stmt m = None \/ exists r, get_stmt m = Some (VRule r)).
 Proof.
   intros H P. zsetup H m; cbn in P; subst; zunfold; cbn.
@@ -173,16 +168,16 @@ Qed.
 
 Definition keeps (m m' : mstate) : Prop := m_st m' = m_st m /\ m_cont m' = m_cont m /\ m_stmt m' = m_stmt m.
 
-Lemma zinv_keeps m m' : zinv m -> keeps m m' -> ztree m' -> zinv m'.
+Lemma zinv_keeps z m m' : zinv z m -> keeps m m' -> ztree z m' -> zinv z m'.
 Proof. intros [_ S] (A & B & C) T. split; [exact T|]. now rewrite A, B, C. Qed.
 
-Lemma zinv_set_stmt m v : zinv m -> zinv (set_stmt m v).
+Lemma zinv_set_stmt z m v : zinv z m -> zinv z (set_stmt m v).
 Proof.
-  intros [T S]. apply (zinv_keeps m); [split; assumption|exact (set_stmt_sig m v)|].
-  apply ztree_set_stmt; [exact T|]. intros C. destruct S as (_ & S1 & _). now apply S1.
+  intros [T S]. apply (zinv_keeps z m); [split; assumption|exact (set_stmt_sig m v)|].
+  now apply ztree_set_stmt.
 Qed.
 
-Lemma uz_append_step z m st : ztree m -> append_step (unzoom z m) st = option_map (unzoom z) (append_step m st).
+Lemma uz_append_step z m st : ztree z m -> append_step (unzoom z m) st = option_map (unzoom z) (append_step m st).
 Proof.
   intros T. unfold append_step. destruct (sptr_eq_dec (m_stmt m) PRuleS) as [E|NE].
   - destruct (uz_get_stmt_rule z m T E) as [[r G] [G'|[r' G']]]; rewrite G, G'; reflexivity.
@@ -190,13 +185,13 @@ Proof.
     cbn. now rewrite uz_set_stmt.
 Qed.
 
-Lemma zinv_append_step m st m' : zinv m -> append_step m st = Some m' -> zinv m' /\ keeps m m'.
+Lemma zinv_append_step z m st m' : zinv z m -> append_step m st = Some m' -> zinv z m' /\ keeps m m'.
 Proof.
   intros Z. unfold append_step. destruct (get_stmt m) as [v|]; [|discriminate]. destruct (view_steps v); [|discriminate].
   intros E. inversion E. subst. split; [now apply zinv_set_stmt|exact (set_stmt_sig m _)].
 Qed.
 
-Lemma uz_set_last_step z m f : ztree m -> set_last_step (unzoom z m) f = unzoom z (set_last_step m f).
+Lemma uz_set_last_step z m f : ztree z m -> set_last_step (unzoom z m) f = unzoom z (set_last_step m f).
 Proof.
   intros T. unfold set_last_step. destruct (sptr_eq_dec (m_stmt m) PRuleS) as [E|NE].
   - destruct (uz_get_stmt_rule z m T E) as [[r G] [G'|[r' G']]]; rewrite G, G'; reflexivity.
@@ -204,21 +199,21 @@ Proof.
     now rewrite uz_set_stmt.
 Qed.
 
-Lemma zinv_set_last_step m f : zinv m -> zinv (set_last_step m f) /\ keeps m (set_last_step m f).
+Lemma zinv_set_last_step z m f : zinv z m -> zinv z (set_last_step m f) /\ keeps m (set_last_step m f).
 Proof.
   intros Z. unfold set_last_step. destruct (get_stmt m) as [v|]; [|split; [exact Z|repeat split]].
   destruct (view_steps v) as [[|s l]|]; try (split; [exact Z|repeat split]).
   split; [now apply zinv_set_stmt|exact (set_stmt_sig m _)].
 Qed.
 
-Lemma uz_stmt_has_steps z m : ztree m -> stmt_has_steps (unzoom z m) = stmt_has_steps m.
+Lemma uz_stmt_has_steps z m : ztree z m -> stmt_has_steps (unzoom z m) = stmt_has_steps m.
 Proof.
   intros T. unfold stmt_has_steps. destruct (sptr_eq_dec (m_stmt m) PRuleS) as [E|NE].
   - destruct (uz_get_stmt_rule z m T E) as [[r G] [G'|[r' G']]]; rewrite G, G'; reflexivity.
   - now rewrite (uz_get_stmt z m T NE).
 Qed.
 
-Lemma uz_close_table z m : ztree m -> close_table (unzoom z m) = unzoom z (close_table m).
+Lemma uz_close_table z m : ztree z m -> close_table (unzoom z m) = unzoom z (close_table m).
 Proof.
   intros T. unfold close_table. change (m_table (unzoom z m)) with (m_table m). change (m_in_examples (unzoom z m)) with (m_in_examples m).
   destruct (m_table m) as [t|]; [|reflexivity]. destruct (m_in_examples m).
@@ -229,31 +224,31 @@ Proof.
   - now rewrite uz_set_last_step.
 Qed.
 
-Lemma zinv_close_table m : zinv m -> zinv (close_table m) /\ keeps m (close_table m).
+Lemma zinv_close_table z m : zinv z m -> zinv z (close_table m) /\ keeps m (close_table m).
 Proof.
   intros Z. unfold close_table. destruct (m_table m) as [t|]; [|split; [exact Z|repeat split]]. destruct (m_in_examples m).
   - destruct (get_stmt m) as [[b|s|r]|]; try (split; [exact Z|repeat split]).
     destruct (sc_examples s); [split; [exact Z|repeat split]|].
-    pose proof (zinv_set_stmt m (VScen (mkPScen (sc_outline s) (sc_kw s) (sc_name s) (sc_line s) (sc_tags s) (sc_descr s) (sc_steps s)
+    pose proof (zinv_set_stmt z m (VScen (mkPScen (sc_outline s) (sc_kw s) (sc_name s) (sc_line s) (sc_tags s) (sc_descr s) (sc_steps s)
                    (mkPEx (pe_kw p) (pe_name p) (pe_line p) (pe_tags p) (Some (table_rows_in_order t)) :: l))) Z) as Z'.
     split; [exact Z'|exact (set_stmt_sig m _)].
-  - destruct (zinv_set_last_step m (fun st => mkPStep (ps_kw st) (ps_type st) (ps_name st) (ps_line st) (ps_text st) (Some (table_rows_in_order t))) Z) as [Z' K].
+  - destruct (zinv_set_last_step z m (fun st => mkPStep (ps_kw st) (ps_type st) (ps_name st) (ps_line st) (ps_text st) (Some (table_rows_in_order t))) Z) as [Z' K].
     split; [exact Z'|exact K].
 Qed.
 
 (* ---- builders ---- *)
-Lemma uz_build_scenario z m o a n : ztree m -> build_scenario (unzoom z m) o a n = unzoom z (build_scenario m o a n).
+Lemma uz_build_scenario z m o a n : ztree z m -> build_scenario (unzoom z m) o a n = unzoom z (build_scenario m o a n).
 Proof. intros T. unfold build_scenario. change (m_line (unzoom z m)) with (m_line m). change (m_tags (unzoom z m)) with (m_tags m). now rewrite uz_add_item. Qed.
 
-Lemma zinv_build_scenario m o a n : zinv m -> ztree (build_scenario m o a n) /\
+Lemma zinv_build_scenario z m o a n : zinv z m -> ztree z (build_scenario m o a n) /\
   m_cont (build_scenario m o a n) = m_cont m /\ m_stmt (build_scenario m o a n) = PItem.
 Proof.
   intros [T S]. unfold build_scenario. set (s := mkPScen o a n (m_line m) (m_tags m) [] [] []).
-  destruct (add_item_sig m s T) as (A & B & C). split; [|split; [exact B|exact C]].
-  apply (ztree_ext (add_item m s)); [reflexivity|reflexivity|now apply ztree_add_item].
+  destruct (add_item_sig z m s T) as (A & B & C). split; [|split; [exact B|exact C]].
+  apply (ztree_ext z (add_item m s)); [reflexivity|reflexivity|reflexivity|now apply ztree_add_item].
 Qed.
 
-Lemma uz_build_examples z m a n : ztree m -> build_examples (unzoom z m) a n = rmap (unzoom z) (build_examples m a n).
+Lemma uz_build_examples z m a n : ztree z m -> build_examples (unzoom z m) a n = rmap (unzoom z) (build_examples m a n).
 Proof.
   intros T. unfold build_examples. change (m_line (unzoom z m)) with (m_line m). change (m_tags (unzoom z m)) with (m_tags m).
   change (m_table (unzoom z m)) with (m_table m).
@@ -263,24 +258,24 @@ Proof.
     destruct (sc_outline s); [|reflexivity]. cbn [rmap]. now rewrite uz_set_stmt.
 Qed.
 
-Lemma zinv_build_examples m a n m' : zinv m -> build_examples m a n = ROk m' -> zinv m' /\ keeps m m'.
+Lemma zinv_build_examples z m a n m' : zinv z m -> build_examples m a n = ROk m' -> zinv z m' /\ keeps m m'.
 Proof.
   intros Z. unfold build_examples. destruct (get_stmt m) as [[b|s|r]|]; try discriminate. destruct (sc_outline s); [|discriminate].
   intros E. inversion E. subst. split.
-  - pose proof (zinv_set_stmt m (VScen (mkPScen true (sc_kw s) (sc_name s) (sc_line s) (sc_tags s) (sc_descr s) (sc_steps s)
+  - pose proof (zinv_set_stmt z m (VScen (mkPScen true (sc_kw s) (sc_name s) (sc_line s) (sc_tags s) (sc_descr s) (sc_steps s)
                                              (mkPEx a n (m_line m) (m_tags m) None :: sc_examples s))) Z) as Z'. exact Z'.
   - exact (set_stmt_sig m _).
 Qed.
 
-Lemma uz_build_rule z m a n : ztree m -> build_rule (unzoom z m) a n = rmap (unzoom z) (build_rule m a n).
+Lemma uz_build_rule z m a n : ztree z m -> build_rule (unzoom z m) a n = rmap (unzoom z) (build_rule m a n).
 Proof.
   intros H. zsetup H m; zunfold; cbn.
   - rewrite (span_scens _ A). cbn. destruct fitems as [|[s0|r0] t0]; cbn in *; try discriminate A; rewrite ?(span_scens _ A); reflexivity.
   - destruct (span_rules t) as [p o] eqn:SP. cbn. rewrite ?SP. reflexivity.
 Qed.
 
-Lemma zinv_build_rule m a n m' : ztree m -> build_rule m a n = ROk m' ->
-  ztree m' /\ m_st m' = m_st m /\ m_cont m' = CRule /\ m_stmt m' = PRuleS.
+Lemma zinv_build_rule z m a n m' : ztree z m -> build_rule m a n = ROk m' ->
+  ztree z m' /\ m_st m' = m_st m /\ m_cont m' = CRule /\ m_stmt m' = PRuleS.
 Proof.
   intros H. zsetup H m; unfold build_rule; cbn; intros E; inversion E; subst; cbn; (split; [|auto]).
   - eexists; cbn; split; [reflexivity|]; split; [reflexivity|]; right; split; [reflexivity|].
@@ -290,14 +285,14 @@ Proof.
 Qed.
 
 (* a Background line: only inside a rule of the zoomed feature (the zoomed feature itself has none) *)
-Lemma uz_build_background z m a n : ztree m -> m_cont m = CRule -> build_background (unzoom z m) a n = rmap (unzoom z) (build_background m a n).
+Lemma uz_build_background z m a n : ztree z m -> m_cont m = CRule -> build_background (unzoom z m) a n = rmap (unzoom z) (build_background m a n).
 Proof.
   intros H C0. zsetup H m; try discriminate C0. zunfold; cbn. destruct (span_rules t) as [p o] eqn:SP. cbn.
   destruct tags; [|reflexivity]. destruct (r_bg r) as [b|]; [destruct (bg_steps b); [|reflexivity]|]; cbn; rewrite SP; reflexivity.
 Qed.
 
-Lemma zinv_build_background m a n m' : ztree m -> m_cont m = CRule -> build_background m a n = ROk m' ->
-  ztree m' /\ m_st m' = m_st m /\ m_cont m' = CRule /\ m_stmt m' = PBg.
+Lemma zinv_build_background z m a n m' : ztree z m -> m_cont m = CRule -> build_background m a n = ROk m' ->
+  ztree z m' /\ m_st m' = m_st m /\ m_cont m' = CRule /\ m_stmt m' = PBg.
 Proof.
   intros H C0. zsetup H m; try discriminate C0. unfold build_background, cont_bg, cur_rule, set_cont_bg, set_cur_rule, cur_rule. cbn.
   destruct tags; [|discriminate]. destruct (r_bg r) as [b|]; [destruct (bg_steps b); [|discriminate]|];
@@ -307,7 +302,7 @@ Qed.
 (* ---- steps and taggable statements ---- *)
 Definition pmap (z : zctx) (p : pstep * mstate) : pstep * mstate := (fst p, unzoom z (snd p)).
 
-Lemma uz_parse_step z m s : ztree m -> parse_step (unzoom z m) s = romap (pmap z) (parse_step m s).
+Lemma uz_parse_step z m s : ztree z m -> parse_step (unzoom z m) s = romap (pmap z) (parse_step m s).
 Proof.
   intros T. unfold parse_step. change (m_kw (unzoom z m)) with (m_kw m). change (m_last (unzoom z m)) with (m_last m).
   change (m_line (unzoom z m)) with (m_line m). rewrite (uz_last_bg_type z m T).
@@ -324,105 +319,105 @@ Proof.
     destruct (last_bg_type m); intros E; inversion E; eauto.
 Qed.
 
-Lemma zinv_parse_step m s st m1 : zinv m -> parse_step m s = ROk (Some (st, m1)) -> zinv m1 /\ keeps m m1.
+Lemma zinv_parse_step z m s st m1 : zinv z m -> parse_step m s = ROk (Some (st, m1)) -> zinv z m1 /\ keeps m m1.
 Proof. intros Z E. destruct (parse_step_state m s st m1 E) as [->|[t ->]]; split; try exact Z; repeat split. Qed.
 
-Lemma zinv_upd_st m s : ztree m -> sigok s (m_cont m) (m_stmt m) -> zinv (upd_st m s).
+Lemma zinv_upd_st z m s : ztree z m -> sigok s (m_cont m) (m_stmt m) -> zinv z (upd_st m s).
 Proof. intros T S. split; [exact T|exact S]. Qed.
 
 Ltac sigsolve := unfold sigok in *; intuition congruence.
 
-Lemma sub_taggable_ok z m s : zinv m ->
-  sub_taggable (unzoom z m) s = romap (unzoom z) (sub_taggable m s) /\ roall zinv (sub_taggable m s).
+Lemma sub_taggable_ok z m s : zinv z m ->
+  sub_taggable (unzoom z m) s = romap (unzoom z) (sub_taggable m s) /\ roall (zinv z) (sub_taggable m s).
 Proof.
   intros [T S]. unfold sub_taggable. change (m_kw (unzoom z m)) with (m_kw m). change (m_line (unzoom z m)) with (m_line m).
   change (m_tags (unzoom z m)) with (m_tags m). rewrite !match_at. destruct (starts_at s).
   - destruct (tag_words (split_ws s) (m_line m)); cbn; [|auto]. split; [reflexivity|]. apply zinv_upd_st; [exact T|]. cbn. sigsolve.
   - destruct (first_alias (k_rule (m_kw m)) s) as [[a n]|].
     { rewrite (uz_build_rule z m a n T). destruct (build_rule m a n) as [m'|] eqn:B; cbn; [|auto]. split; [reflexivity|].
-      destruct (zinv_build_rule m a n m' T B) as (T' & _ & C' & P'). apply zinv_upd_st; [exact T'|]. rewrite C', P'. sigsolve. }
+      destruct (zinv_build_rule z m a n m' T B) as (T' & _ & C' & P'). apply zinv_upd_st; [exact T'|]. rewrite C', P'. sigsolve. }
     destruct (first_alias (k_scenario (m_kw m)) s) as [[a n]|].
     { rewrite (uz_build_scenario z m false a n T). cbn. split; [reflexivity|].
-      destruct (zinv_build_scenario m false a n (conj T S)) as (T' & C' & P'). apply zinv_upd_st; [exact T'|]. rewrite C', P'. sigsolve. }
+      destruct (zinv_build_scenario z m false a n (conj T S)) as (T' & C' & P'). apply zinv_upd_st; [exact T'|]. rewrite C', P'. sigsolve. }
     destruct (first_alias (k_outline (m_kw m)) s) as [[a n]|].
     { rewrite (uz_build_scenario z m true a n T). cbn. split; [reflexivity|].
-      destruct (zinv_build_scenario m true a n (conj T S)) as (T' & C' & P'). apply zinv_upd_st; [exact T'|]. rewrite C', P'. sigsolve. }
+      destruct (zinv_build_scenario z m true a n (conj T S)) as (T' & C' & P'). apply zinv_upd_st; [exact T'|]. rewrite C', P'. sigsolve. }
     destruct (first_alias (k_examples (m_kw m)) s) as [[a n]|]; [|cbn; auto].
     rewrite (uz_build_examples z m a n T). destruct (build_examples m a n) as [m'|] eqn:B; cbn; [|auto]. split; [reflexivity|].
-    destruct (zinv_build_examples m a n m' (conj T S) B) as ([T' S'] & K1 & K2 & K3). apply zinv_upd_st; [exact T'|]. rewrite K2, K3. sigsolve.
+    destruct (zinv_build_examples z m a n m' (conj T S) B) as ([T' S'] & K1 & K2 & K3). apply zinv_upd_st; [exact T'|]. rewrite K2, K3. sigsolve.
 Qed.
 
 (* ---- the actions ---- *)
-Lemma a_table_row_ok z m s : zinv m ->
-  a_table_row (unzoom z m) s = rmap (unzoom z) (a_table_row m s) /\ rall zinv (a_table_row m s).
+Lemma a_table_row_ok z m s : zinv z m ->
+  a_table_row (unzoom z m) s = rmap (unzoom z) (a_table_row m s) /\ rall (zinv z) (a_table_row m s).
 Proof.
   intros Z. unfold a_table_row. change (m_table (unzoom z m)) with (m_table m). destruct (m_table m) as [t|]; cbn.
   - destruct (Nat.eqb (length (row_cells s)) (length (pt_head t))); cbn; auto.
   - auto.
 Qed.
 
-Lemma a_steps_ok z m line : zinv m -> m_st m = StSteps ->
-  a_steps (unzoom z m) line = rmap (unzoom z) (a_steps m line) /\ rall zinv (a_steps m line).
+Lemma a_steps_ok z m line : zinv z m -> m_st m = StSteps ->
+  a_steps (unzoom z m) line = rmap (unzoom z) (a_steps m line) /\ rall (zinv z) (a_steps m line).
 Proof.
   intros [T S] ST. unfold a_steps. rewrite (uz_stmt_has_steps z m T).
   change (m_line (unzoom z m)) with (m_line m). change (m_lines (unzoom z m)) with (m_lines m).
   destruct (doc_fact line) as [[term col]|].
   { destruct (stmt_has_steps m); cbn; [|auto]. split; [reflexivity|]. apply zinv_upd_st; [exact T|]. cbn. rewrite ST in S. sigsolve. }
   rewrite (uz_parse_step z m _ T). destruct (parse_step m (strip line)) as [[[st m1]|]|] eqn:PS; cbn; [| |auto].
-  { destruct (zinv_parse_step m _ st m1 (conj T S) PS) as [[T1 S1] K1]. rewrite (uz_append_step z m1 st T1).
+  { destruct (zinv_parse_step z m _ st m1 (conj T S) PS) as [[T1 S1] K1]. rewrite (uz_append_step z m1 st T1).
     destruct (append_step m1 st) as [m2|] eqn:AP; cbn; [|auto]. split; [reflexivity|].
-    destruct (zinv_append_step m1 st m2 (conj T1 S1) AP) as [Z2 _]. exact Z2. }
+    destruct (zinv_append_step z m1 st m2 (conj T1 S1) AP) as [Z2 _]. exact Z2. }
   destruct (sub_taggable_ok z m (strip line) (conj T S)) as [E R]. rewrite E.
   destruct (sub_taggable m (strip line)) as [[m'|]|]; cbn; [split; [reflexivity|exact R]| |auto].
   rewrite !match_pipe. destruct (starts_pipe (strip line)); [|cbn; auto].
   destruct (stmt_has_steps m); [|cbn; auto].
-  assert (Z' : zinv (upd_st m StTable)) by (apply zinv_upd_st; [exact T|]; rewrite ST in S; sigsolve).
+  assert (Z' : zinv z (upd_st m StTable)) by (apply zinv_upd_st; [exact T|]; rewrite ST in S; sigsolve).
   exact (a_table_row_ok z (upd_st m StTable) (strip line) Z').
 Qed.
 
-Lemma a_table_ok z m line : zinv m -> m_st m = StTable ->
-  a_table (unzoom z m) line = rmap (unzoom z) (a_table m line) /\ rall zinv (a_table m line).
+Lemma a_table_ok z m line : zinv z m -> m_st m = StTable ->
+  a_table (unzoom z m) line = rmap (unzoom z) (a_table m line) /\ rall (zinv z) (a_table m line).
 Proof.
   intros Z ST. unfold a_table. rewrite !match_pipe. destruct (starts_pipe (strip line)).
   - now apply a_table_row_ok.
   - destruct Z as [T S]. rewrite (uz_close_table z m T).
-    destruct (zinv_close_table m (conj T S)) as [[T' S'] (K1 & K2 & K3)].
-    assert (Z' : zinv (upd_st (close_table m) StSteps)).
+    destruct (zinv_close_table z m (conj T S)) as [[T' S'] (K1 & K2 & K3)].
+    assert (Z' : zinv z (upd_st (close_table m) StSteps)).
     { apply zinv_upd_st; [exact T'|]. rewrite K2, K3. rewrite ST in S. sigsolve. }
     exact (a_steps_ok z (upd_st (close_table m) StSteps) (strip line) Z' eq_refl).
 Qed.
 
-Lemma a_multiline_ok z m line : zinv m -> m_st m = StMultiline ->
-  a_multiline (unzoom z m) line = rmap (unzoom z) (a_multiline m line) /\ rall zinv (a_multiline m line).
+Lemma a_multiline_ok z m line : zinv z m -> m_st m = StMultiline ->
+  a_multiline (unzoom z m) line = rmap (unzoom z) (a_multiline m line) /\ rall (zinv z) (a_multiline m line).
 Proof.
   intros [T S] ST. unfold a_multiline. change (m_ml_term (unzoom z m)) with (m_ml_term m).
   change (m_ml_start (unzoom z m)) with (m_ml_start m). change (m_ml_lead (unzoom z m)) with (m_ml_lead m).
   change (m_lines (unzoom z m)) with (m_lines m). change (m_line (unzoom z m)) with (m_line m).
   destruct (prefixb (m_ml_term m) (strip line)).
   - rewrite (uz_set_last_step z m _ T). cbn. split; [reflexivity|].
-    destruct (zinv_set_last_step m (fun st => mkPStep (ps_kw st) (ps_type st) (ps_name st) (ps_line st)
+    destruct (zinv_set_last_step z m (fun st => mkPStep (ps_kw st) (ps_type st) (ps_name st) (ps_line st)
                  (Some (join [10%N] (rev (m_lines m)), m_ml_start m)) (ps_table st)) (conj T S)) as [[T' S'] (K1 & K2 & K3)].
     apply zinv_upd_st; [exact T'|]. cbn. rewrite K2, K3. rewrite ST in S. sigsolve.
   - destruct (strip (firstn (m_ml_lead m) line)); cbn; auto. split; [reflexivity|]. split; [exact T|exact S].
 Qed.
 
-Lemma a_taggable_ok z m s : zinv m ->
-  a_taggable (unzoom z m) s = rmap (unzoom z) (a_taggable m s) /\ rall zinv (a_taggable m s).
+Lemma a_taggable_ok z m s : zinv z m ->
+  a_taggable (unzoom z m) s = rmap (unzoom z) (a_taggable m s) /\ rall (zinv z) (a_taggable m s).
 Proof.
   intros Z. unfold a_taggable. destruct (sub_taggable_ok z m s Z) as [E R]. rewrite E.
   destruct (sub_taggable m s) as [[m'|]|]; cbn; auto.
 Qed.
 
-Lemma a_scenario_ok z m0 s : zinv m0 -> (m_st m0 = StScenario \/ m_st m0 = StBackground) ->
-  a_scenario (unzoom z m0) s = rmap (unzoom z) (a_scenario m0 s) /\ rall zinv (a_scenario m0 s).
+Lemma a_scenario_ok z m0 s : zinv z m0 -> (m_st m0 = StScenario \/ m_st m0 = StBackground) ->
+  a_scenario (unzoom z m0) s = rmap (unzoom z) (a_scenario m0 s) /\ rall (zinv z) (a_scenario m0 s).
 Proof.
   intros [T S] ST. unfold a_scenario. change (upd_last (unzoom z m0) None) with (unzoom z (upd_last m0 None)).
-  set (m := upd_last m0 None). assert (Z : zinv m) by (split; [exact T|exact S]).
-  assert (T' : ztree m) by exact T.
+  set (m := upd_last m0 None). assert (Z : zinv z m) by (split; [exact T|exact S]).
+  assert (T' : ztree z m) by exact T.
   rewrite (uz_parse_step z m _ T'). destruct (parse_step m s) as [[[st m1]|]|] eqn:PS; cbn; [| |auto].
-  { destruct (zinv_parse_step m _ st m1 Z PS) as [[T1 S1] (K1 & K2 & K3)]. rewrite (uz_append_step z m1 st T1).
+  { destruct (zinv_parse_step z m _ st m1 Z PS) as [[T1 S1] (K1 & K2 & K3)]. rewrite (uz_append_step z m1 st T1).
     destruct (append_step m1 st) as [m2|] eqn:AP; cbn; [|auto]. split; [reflexivity|].
-    destruct (zinv_append_step m1 st m2 (conj T1 S1) AP) as [[T2 S2] (J1 & J2 & J3)].
+    destruct (zinv_append_step z m1 st m2 (conj T1 S1) AP) as [[T2 S2] (J1 & J2 & J3)].
     apply zinv_upd_st; [exact T2|]. rewrite J2, J3, K2, K3. cbn. destruct ST as [ST|ST]; rewrite ST in S; sigsolve. }
   destruct (sub_taggable_ok z m s Z) as [E R]. rewrite E.
   destruct (sub_taggable m s) as [[m'|]|]; cbn; [split; [reflexivity|exact R]| |auto].
@@ -434,7 +429,7 @@ Qed.
 (* the line under a Rule line: in the zoomed world the Rule line was the Feature line *)
 Definition nobg (kw : kwtable) (line : ustr) : Prop := first_alias (k_background kw) (strip line) = None.
 
-Lemma uz_feature_descr z m d : ztree m -> m_cont m = CFeat ->
+Lemma uz_feature_descr z m d : ztree z m -> m_cont m = CFeat ->
   match cur_rule (unzoom z m) with
   | Some r => ROk (set_cur_rule (unzoom z m) (mkPRule (r_kw r) (r_name r) (r_line r) (r_tags r) (d :: r_descr r) (r_bg r) (r_items r)))
   | None => RErr (m_line m)
@@ -443,15 +438,15 @@ Proof.
   intros H C0. zsetup H m; try discriminate C0. zunfold. cbn. rewrite (span_scens _ A). cbn. rewrite ?(span_scens _ A). reflexivity.
 Qed.
 
-Lemma ztree_feature_descr m d m' : ztree m -> add_feature_descr m d = ROk m' -> ztree m' /\ keeps m m'.
+Lemma ztree_feature_descr z m d m' : ztree z m -> add_feature_descr m d = ROk m' -> ztree z m' /\ keeps m m'.
 Proof.
   intros H. zsetup H m; unfold add_feature_descr; cbn; intros E; inversion E; subst; (split; [|repeat split]).
-  - eexists; cbn. split; [reflexivity|]. split; [reflexivity|]. left. split; [reflexivity|exact A].
+  - ztA.
   - ztB.
 Qed.
 
-Lemma a_feature_rule_ok z m s : zinv m -> m_st m = StFeature -> first_alias (k_background (m_kw m)) s = None ->
-  a_rule (unzoom z m) s = rmap (unzoom z) (a_feature m s) /\ rall zinv (a_feature m s).
+Lemma a_feature_rule_ok z m s : zinv z m -> m_st m = StFeature -> first_alias (k_background (m_kw m)) s = None ->
+  a_rule (unzoom z m) s = rmap (unzoom z) (a_feature m s) /\ rall (zinv z) (a_feature m s).
 Proof.
   intros [T S] ST NB. unfold a_rule, a_feature. destruct (sub_taggable_ok z m s (conj T S)) as [E R]. rewrite E.
   destruct (sub_taggable m s) as [[m'|]|]; cbn [rbind romap rmap rall roall] in *; [split; [reflexivity|exact R]| |auto].
@@ -460,10 +455,10 @@ Proof.
   { destruct T as (vf & _ & _ & [[C _]|[C _]]); [exact C|]. destruct S as (_ & _ & S2 & _). exfalso. now apply (S2 C). }
   change (m_line (unzoom z m)) with (m_line m). rewrite (uz_feature_descr z m s T C). split; [reflexivity|].
   destruct (add_feature_descr m s) as [m'|] eqn:AD; cbn; [|auto].
-  destruct (ztree_feature_descr m s m' T AD) as [T' (K1 & K2 & K3)]. split; [exact T'|]. now rewrite K1, K2, K3.
+  destruct (ztree_feature_descr z m s m' T AD) as [T' (K1 & K2 & K3)]. split; [exact T'|]. now rewrite K1, K2, K3.
 Qed.
 
-Lemma uz_rule_descr z m d : ztree m -> m_cont m = CRule ->
+Lemma uz_rule_descr z m d : ztree z m -> m_cont m = CRule ->
   match cur_rule (unzoom z m) with
   | Some r => ROk (set_cur_rule (unzoom z m) (mkPRule (r_kw r) (r_name r) (r_line r) (r_tags r) (d :: r_descr r) (r_bg r) (r_items r)))
   | None => RErr (m_line m)
@@ -476,18 +471,18 @@ Proof.
   intros H C0. zsetup H m; try discriminate C0. zunfold. cbn. destruct (span_rules t) as [p o] eqn:SP. cbn. rewrite ?SP. reflexivity.
 Qed.
 
-Lemma ztree_rule_descr m d : ztree m -> m_cont m = CRule ->
+Lemma ztree_rule_descr z m d : ztree z m -> m_cont m = CRule ->
   match cur_rule m with
   | Some r => let m' := set_cur_rule m (mkPRule (r_kw r) (r_name r) (r_line r) (r_tags r) (d :: r_descr r) (r_bg r) (r_items r)) in
-              ztree m' /\ keeps m m'
+              ztree z m' /\ keeps m m'
   | None => True
   end.
 Proof.
   intros H C0. zsetup H m; try discriminate C0. unfold cur_rule, set_cur_rule. cbn. split; [ztB|repeat split].
 Qed.
 
-Lemma a_rule_rule_ok z m s : zinv m -> m_st m = StRule ->
-  a_rule (unzoom z m) s = rmap (unzoom z) (a_rule m s) /\ rall zinv (a_rule m s).
+Lemma a_rule_rule_ok z m s : zinv z m -> m_st m = StRule ->
+  a_rule (unzoom z m) s = rmap (unzoom z) (a_rule m s) /\ rall (zinv z) (a_rule m s).
 Proof.
   intros [T S] ST. unfold a_rule. destruct (sub_taggable_ok z m s (conj T S)) as [E R]. rewrite E.
   destruct (sub_taggable m s) as [[m'|]|]; cbn [rbind romap rmap rall roall] in *; [split; [reflexivity|exact R]| |auto].
@@ -496,9 +491,9 @@ Proof.
   { destruct T as (vf & _ & _ & [[C _]|[C _]]); [|exact C]. destruct S as (_ & S1 & _). exfalso. destruct (S1 C) as [X _]. now apply X. }
   destruct (first_alias (k_background (m_kw m)) s) as [[a n]|].
   - rewrite (uz_build_background z m a n T C). destruct (build_background m a n) as [m'|] eqn:B; cbn; [|auto]. split; [reflexivity|].
-    destruct (zinv_build_background m a n m' T C B) as (T' & _ & C' & P'). apply zinv_upd_st; [exact T'|]. rewrite C', P'. sigsolve.
+    destruct (zinv_build_background z m a n m' T C B) as (T' & _ & C' & P'). apply zinv_upd_st; [exact T'|]. rewrite C', P'. sigsolve.
   - change (m_line (unzoom z m)) with (m_line m). rewrite (uz_rule_descr z m s T C). split; [reflexivity|].
-    pose proof (ztree_rule_descr m s T C) as X. destruct (cur_rule m) as [r|]; cbn; [|auto].
+    pose proof (ztree_rule_descr z m s T C) as X. destruct (cur_rule m) as [r|]; cbn; [|auto].
     destruct X as [T' (K1 & K2 & K3)]. split; [exact T'|]. now rewrite K1, K2, K3.
 Qed.
 
@@ -512,8 +507,8 @@ Proof.
   destruct (m_st m); try reflexivity; congruence.
 Qed.
 
-Lemma action_ok z m line : zinv m -> nobg (m_kw m) line -> strip line <> [] \/ m_st m = StMultiline ->
-  action (unzoom z m) line = rmap (unzoom z) (action m line) /\ rall zinv (action m line).
+Lemma action_ok z m line : zinv z m -> nobg (m_kw m) line -> strip line <> [] \/ m_st m = StMultiline ->
+  action (unzoom z m) line = rmap (unzoom z) (action m line) /\ rall (zinv z) (action m line).
 Proof.
   intros Z NB NE. destruct (pst_eq_dec (m_st m) StMultiline) as [ML|NML].
   - assert (A1 : action m line = a_multiline m line) by (unfold action; rewrite ML; reflexivity).
@@ -538,12 +533,12 @@ Proof.
       * now apply a_table_ok.
 Qed.
 
-Theorem feed_unzoom z m line : zinv m -> nobg (m_kw m) line ->
-  feed (ROk (unzoom z m)) line = rmap (unzoom z) (feed (ROk m) line) /\ rall zinv (feed (ROk m) line).
+Theorem feed_unzoom z m line : zinv z m -> nobg (m_kw m) line ->
+  feed (ROk (unzoom z m)) line = rmap (unzoom z) (feed (ROk m) line) /\ rall (zinv z) (feed (ROk m) line).
 Proof.
   intros Z NB. unfold feed. cbn [rbind].
   change (upd_line (unzoom z m) (S (m_line (unzoom z m)))) with (unzoom z (upd_line m (S (m_line m)))).
-  set (m1 := upd_line m (S (m_line m))). assert (Z1 : zinv m1) by exact Z. assert (NB1 : nobg (m_kw m1) line) by exact NB.
+  set (m1 := upd_line m (S (m_line m))). assert (Z1 : zinv z m1) by exact Z. assert (NB1 : nobg (m_kw m1) line) by exact NB.
   destruct (strip line) as [|c r] eqn:SL.
   - cbn [m_st unzoom]. destruct (pst_eq_dec (m_st m1) StMultiline) as [ML|NML].
     + rewrite ML. cbn [stmap]. apply action_ok; auto.
@@ -679,8 +674,8 @@ Qed.
 
 (* a run of lines *)
 Theorem run_unzoom z lines : forall m m',
-  zinv m -> Forall (nobg (m_kw m)) lines -> fold_left feed lines (ROk m) = ROk m' ->
-  fold_left feed lines (ROk (unzoom z m)) = ROk (unzoom z m') /\ zinv m'.
+  zinv z m -> Forall (nobg (m_kw m)) lines -> fold_left feed lines (ROk m) = ROk m' ->
+  fold_left feed lines (ROk (unzoom z m)) = ROk (unzoom z m') /\ zinv z m'.
 Proof.
   induction lines as [|l ls IH]; intros m m' Z NB FD.
   - cbn in *. inversion FD. subst. auto.
